@@ -56,6 +56,8 @@ pub struct Done;
 
 impl Done {
     fn drop_coroutine(co: CoroutineImpl) {
+        #[cfg(may_verif)]
+        crate::verif::event("co.done", get_co_local(&co) as u64, 0);
         // assert!(co.is_done(), "unfinished coroutine detected");
         // just consume the coroutine
         // destroy the local storage
@@ -281,7 +283,11 @@ impl Builder {
             // coroutine local data so that can return from the packet variable
 
             // set the return packet
+            #[cfg(may_verif)]
+            crate::verif::event("co.body", 0, 0);
             their_packet.store(f());
+            #[cfg(may_verif)]
+            crate::verif::event("co.body_end", 0, 0);
 
             their_join.trigger();
             subscriber
@@ -519,9 +525,21 @@ pub fn park_timeout(dur: Duration) {
 /// run the coroutine
 #[inline]
 pub(crate) fn run_coroutine(mut co: CoroutineImpl) {
+    #[cfg(may_verif)]
+    let co_id = get_co_local(&co) as u64;
+    #[cfg(may_verif)]
+    crate::verif::event("co.resume", co_id, 0);
     match co.resume() {
-        Some(ev) => ev.subscribe(co),
+        Some(ev) => {
+            #[cfg(may_verif)]
+            crate::verif::event("co.yield", co_id, 0);
+            ev.subscribe(co);
+            #[cfg(may_verif)]
+            crate::verif::event("co.subscribed", co_id, 0);
+        }
         None => {
+            #[cfg(may_verif)]
+            crate::verif::event("co.panic", co_id, 0);
             // panic happened here
             let local = unsafe { &mut *get_co_local(&co) };
             let join = local.get_join();
